@@ -98,6 +98,11 @@ def run(tier):
             obs = rep.notes.get("_last_obs", {})
             exps = rep.notes.get("_last_exps", [])
             ptr_events(obs, exps, "arrays", kname, lambda e: e["hist"][-1]["op"])
+        # ... arrays of up to 9 elements: element-wise exchanges and copies between two allocations (views, array_ref's)
+        name = "c11_arrays_p%d_nine" % k
+        c = aconsts(2, 3, 3, True, ["ctor_iota", "swap_views", "ref_assign", "assign_view", "assign_copy", "write"])
+        arrays.run_config(rep, "C11", name, c, os.path.join(wd, "arrays_p%d_e0" % k), wd, 2, sig_extra={"pointer": kname, "part": "arrays_nine"})
+        ptr_events(rep.notes.get("_last_obs", {}), rep.notes.get("_last_exps", []), "arrays", kname, lambda e: e["hist"][-1]["op"])
         # ... and arrays with index bases (the array histories of C19): reextent by index extensions, copies, assignment
         bops = ["ctor_ext", "ctor_iota", "ctor_copy", "ctor_move", "ctor_view", "decay", "assign_copy", "assign_move", "assign_view", "swap",
                 "write", "destroy", "reextent", "reextent_fill", "clear", "reshape"]
